@@ -5,7 +5,7 @@ META = {
     "title": "emu-sv gradients equal finite differences of the emulated results",
     "technique": "static analysis: def-use slices of torch.where arguments vs. masks (where-guarded division), "
                  "taint analysis of graph-breaking operations on the forward path, structural contract check of "
-                 "the custom autograd Function",
+                 "the custom autograd Function; polynomial normal form of the derivative operators' coefficients; interprocedural mutates-parameter summaries restricted to tensor storage (in-place rule)",
     "design_ref": "DESIGN.md §5 C30, A.8",
     "explanation": "WGDIV: on the functions reachable from PCHIP1D (6 functions, 3 where() sites) no branch of a "
                    "torch.where divides by a value that is computed from the same data as the mask unless that "
